@@ -2,7 +2,7 @@
 
 Theorems: coq/theories/C07 (resolution refines "first candidate that is not not-found decides";
 CLI search order; over EVERY history and fault schedule: at most one successful load per
-canonical UTF-8 file and none after it, at most one completed evaluation per file and none
+canonical file, at most one completed evaluation per file and none
 started after it, importstr/importbin answer the content of the resolved file, an import of a
 file whose `evaluating` flag is set is an error, every operation (failing or not) leaves no
 flag set / no pending field / a coherent cache, importstr/importbin are independent of the cache).
@@ -22,7 +22,14 @@ import shutil
 import tempfile
 
 from vlib import core
-from vlib.core import cq_list
+from vlib.core import cq_list as _cq_list
+
+
+def cq_list(xs, ty=None):
+    """typed nil: an untyped `[]` inside nested list literals makes elaboration very slow"""
+    if not xs and ty:
+        return f"(@nil ({ty}))"
+    return _cq_list(xs)
 
 IMPORTS = ("From Coq Require Import List NArith Bool.\nFrom JrV Require Import C07.Model.\n"
            "Import ListNotations.\nOpen Scope N_scope.\n")
@@ -40,7 +47,6 @@ ERRCLASS = {
 
 META = json.load(open(os.path.join(core.VERIF, "props", "c07.meta.json")))
 KNOWN_IDS = {k["id"] for k in META.get("known_findings", [])}
-K_REREAD = "C07-nonutf8-reread"
 K_FIELDERR = "C07-field-error-cached"
 
 
@@ -83,10 +89,10 @@ class Layout:
         return out
 
     def cq_comps(self, s):
-        return cq_list(self.comps(s))
+        return cq_list(self.comps(s), "comp")
 
     def cq_path(self, p):
-        return cq_list([str(self.nm(x)) for x in p])
+        return cq_list([str(self.nm(x)) for x in p], "N")
 
     def cq_term(self, t):
         kind, path, sel = t
@@ -109,13 +115,13 @@ class Layout:
             else:
                 bd = b["body"]
                 body = ("(Some {| b_id := %d; b_strict := %s; b_lazy := %s |})" % (
-                    bd["id"], cq_list([self.cq_term(t) for t in bd["strict"]]),
-                    cq_list([cq_list([self.cq_term(t) for t in f]) for f in bd["lazy"]])))
+                    bd["id"], cq_list([self.cq_term(t) for t in bd["strict"]], "term"),
+                    cq_list([cq_list([self.cq_term(t) for t in f], "term") for f in bd["lazy"]], "list term")))
             chars = len(b["bytes"].decode("utf-8")) if b["utf8"] else 0
             blobs.append("(%d, {| bl_utf8 := %s; bl_chars := %d; bl_bytes := %d; bl_body := %s |})" % (
                 i, "true" if b["utf8"] else "false", chars, len(b["bytes"]), body))
         return ("{| w_fs := %s; w_cwd := %s; w_libs := %s; w_blobs := %s; w_faults := [] |}" % (
-                    cq_list(ents), self.cq_path(self.cwd), cq_list([self.cq_comps(l) for l in self.libs]),
+                    cq_list(ents), self.cq_path(self.cwd), cq_list([self.cq_comps(l) for l in self.libs], "list comp"),
                     cq_list(blobs)))
 
     def cq_op(self, o):
@@ -395,7 +401,7 @@ def fixed_layouts():
     # retry of a lazy field whose import failed transiently (field error cache)
     mk({"main/a.jsonnet": ([], [[imp("b.jsonnet")]]), "main/b.jsonnet": ([], [])},
        [("import", "a.jsonnet", "lz0"), ("import", "a.jsonnet", "lz0"), ("import", "b.jsonnet", "v")])
-    # non-UTF-8 file read again
+    # non-UTF-8 file: read once (fixed c43636f), the encoding error is reported on every attempt
     mk({"main/u.bin": b"\xff\xfe", "main/a.jsonnet": ([], [])},
        [("importstr", "u.bin", "v"), ("importstr", "u.bin", "v"), ("importbin", "u.bin", "v"),
         ("importstr", "u.bin", "v"), ("import", "u.bin", "v")])
@@ -514,6 +520,24 @@ def fault_sets(run, rng, thorough):
     return sets
 
 
+def par_coq_eval(items):
+    """items: (definitions, expression).  core.coq_eval starts one coqc per 200 expressions; a
+    layout's expression is heavy (all its fault variants) and its world literal is elaborated much
+    faster as a Definition than inline, so: NPROC chunks evaluated concurrently, each with the
+    definitions of its own layouts as preamble."""
+    from concurrent.futures import ThreadPoolExecutor
+    exprs = items
+    n = max(1, min(core.NPROC, (len(exprs) + 7) // 8))
+    chunks = [exprs[i::n] for i in range(n)]
+    with ThreadPoolExecutor(max_workers=n) as ex:
+        outs = list(ex.map(lambda c: core.coq_eval(IMPORTS, [e for _, e in c],
+                                                   preamble="".join(d for d, _ in c)), chunks))
+    res = [None] * len(exprs)
+    for i, o in enumerate(outs):
+        res[i::n] = o
+    return res
+
+
 def correspond(run, binary, layouts, root):
     failures, model_diffs = [], []
     thorough = run.tier == "thorough"
@@ -524,10 +548,11 @@ def correspond(run, binary, layouts, root):
         fsets.append(fs)
         w = L.cq_world()
         h = cq_list([L.cq_op(o) for o in L.ops])
-        fl = cq_list([cq_list([str(k) for k in s]) for s in fs])
-        exprs.append(f"run_variants {w} {FUEL} {h} {fl}")
+        fl = cq_list([cq_list([str(k) for k in s], "N") for s in fs], "list N")
+        exprs.append((f"Definition w{len(exprs)} := {w}.\nDefinition h{len(exprs)} := {h}.\n",
+                      f"run_variants w{len(exprs)} {FUEL} h{len(exprs)} {fl}"))
     run.log(f"{len(layouts)} layouts; evaluating the model")
-    model = core.coq_eval(IMPORTS, exprs)
+    model = par_coq_eval(exprs)
     run.log("model evaluated")
     reqs, meta = [], []
     for L, fs, m in zip(layouts, fsets, model):
@@ -597,7 +622,6 @@ def judge(run, L, s, mres, mlog, mfresh, mfixed, mcalls, o, failures, model_diff
     # the harness answers the resolver-call counter after each operation: a fault k fired in
     # operation i iff marks[i-1] <= k < marks[i]
     marks = o.get("marks") or []
-    blob_by_path = {"/".join(p): L.blobs[c] for p, c in L.files.items()}
     # (1) load once
     loads = {}
     for e in clog:
@@ -605,9 +629,7 @@ def judge(run, L, s, mres, mlog, mfresh, mfixed, mcalls, o, failures, model_diff
             loads[e[1]] = loads.get(e[1], 0) + 1
     for p, n in loads.items():
         if n > 1:
-            b = blob_by_path.get(p[5:])
-            known = K_REREAD if (b is not None and not b["utf8"]) else None
-            fail(f"{p} was read {n} times in one State", 1, n, known)
+            fail(f"{p} was read {n} times in one State", 1, n)
     # (2) evaluated once / never started again after completion
     done = set()
     for e in clog:
@@ -685,8 +707,8 @@ def clipath_check(run, binary, root, failures, model_diffs):
         js = [rng.choice(dirs[:3]) for _ in range(rng.choice([0, 1, 2, 2, 3, 3, 4]))]
         env = rng.choice([None, ["e0"], ["e1", "e0"], ["e0", "e1"], ["e0", "j1"]])
         cases.append((js, env))
-        libs = f"(search_list {cq_list([L.cq_comps(j) for j in js])} {cq_list([L.cq_comps(e) for e in (env or [])])})"
-        w = L.cq_world().replace("w_libs := []", f"w_libs := {libs}")
+        libs = f"(search_list {cq_list([L.cq_comps(j) for j in js], 'list comp')} {cq_list([L.cq_comps(e) for e in (env or [])], 'list comp')})"
+        w = L.cq_world().replace("w_libs := (@nil (list comp))", f"w_libs := {libs}")
         exprs.append("map (fun raw => resolve_impl (w_fs (%s)) [%d] %s SDefault raw) %s" % (
             w, L.nm("main"), libs, cq_list([L.cq_comps(n) for n in names])))
     model = core.coq_eval(IMPORTS, exprs)
